@@ -464,12 +464,38 @@ def d11_exec_only_if_executable(db, rep, rule="D11-EXEC-ONLY-IF-EXECUTABLE"):
     succ = [r for r in rets if any(fc_line(f, i_, r) for i_ in installs)]
     redirect = lambda e: e.k == "BinaryOperator" and e.op == "=" and (access_path(e.c[0]) or "").endswith("orccode->exec") and \
         ((access_path(strip_casts(e.c[1])) or "").endswith("code_exec") or "orc_executor_emulate" in unparse(e.c[1]))
+    alloc = [c for c in f.calls("orc_code_allocate_codemem")]
+    if not alloc:
+        raise AnalysisBroken("orc_compiler_compile_program: orc_code_allocate_codemem call not found")
+    from collections import deque
+    stops = {i_.id for i_ in installs}
     for r in succ:
-        wit = path_to(f, r, lambda e: redirect(e) or (e.id in {i_.id for i_ in installs}))
-        rep.check(wit is None, rule, where(f), "orccode->exec@return:%s" % r.line,
-                  "every path to the success return either installs the code under target->executable or redirects orccode->exec to the fallback",
+        bad = False
+        ap = f.pos(alloc[-1])
+        seen = set()
+        dq = deque([(ap[0], ap[1] + 1)])
+        while dq and not bad:
+            b, i0 = dq.popleft()
+            if (b, i0 > 0) in seen:
+                continue
+            seen.add((b, i0 > 0))
+            blk = f.blocks[b]
+            stop = False
+            for e in blk.el[i0:]:
+                if redirect(e) or e.id in stops:
+                    stop = True
+                    break
+                if e.id == r.id:
+                    bad = True
+                    break
+            if stop or bad or blk.noreturn:
+                continue
+            dq.extend((s_, 0) for s_ in blk.succs if s_ is not None)
+        rep.check(not bad, rule, where(f), "orccode->exec@return:%s" % r.line,
+                  "after the code memory is allocated, every path to the success return either installs the code under target->executable or redirects "
+                  "orccode->exec to the fallback",
                   "orc_compiler_compile_program can reach its success return (line %s) with orccode->exec still pointing at code of a non-executable target: "
-                  "a code-only executor (orc_executor_set_program taken code) calls it" % r.line, line=r.line)
+                  "a code-only executor calls it" % r.line, line=r.line)
 
 
 def fc_line(f, a, b):
